@@ -256,6 +256,21 @@ def roundtrip_cases():
             continue
         out.append(("pickle " + name, "pkl", "rt.pkl", factory))
         out.append(("gz pickle " + name, "pklgz", "rt.pkl.gz", factory))
+        if name in ("PCAModel", "PCAVectorModel"):
+            # models in a non-default state: the active view narrowed, and trimmed
+            def narrowed(factory=factory):
+                m = factory()
+                m.n_active_components = max(1, m.n_components - 2)
+                return m
+
+            def trimmed(factory=factory):
+                m = factory()
+                m.trim_components(max(1, m.n_components - 1))
+                m.n_active_components = 1
+                return m
+
+            out.append(("pickle %s (active view narrowed)" % name, "pkl", "rt.pkl", narrowed))
+            out.append(("gz pickle %s (trimmed, one active)" % name, "pklgz", "rt.pkl.gz", trimmed))
         if name in ("PointCloud", "Image", "PCAModel"):
             out.append(("pickle (multi-dot name) " + name, "pkl", "rt.v1.2024.pkl", factory))
             out.append(("gz pickle (multi-dot name) " + name, "pklgz", "rt.v1.2024.pkl.gz", factory))
